@@ -227,6 +227,40 @@ func gridCase(i int) *ProgCase {
 	return c
 }
 
+// ---------------------------------------------------------------- string-literal escape grid
+
+// every byte after a backslash, at every distance from the end of the literal,
+// in both quote styles, in a program string, a selector and a printf format
+var escapeTails = []string{"", "4", "41", "0041", "00e", "{41}", "G", "\\", " "}
+
+func escapeGridCount() int { return 256 * len(escapeTails) * 4 }
+
+func escapeGridCase(i int) *ProgCase {
+	b := byte(i % 256)
+	i /= 256
+	tail := escapeTails[i%len(escapeTails)]
+	i /= len(escapeTails)
+	form := i % 4
+	lit := "\\" + string([]byte{b}) + tail
+	if b == '\'' || b == '"' || b == '\n' {
+		// the lexer ends the literal / the line there: keep the shape but stay inside the literal
+		lit = "\\\\" + tail
+	}
+	c := &ProgCase{Note: fmt.Sprintf("escape 0x%02x tail %q form %d", b, tail, form), Budget: 1000, Inputs: []ProgInput{{Name: "in.json", Data: QBytes(`{"a": 1}`)}}}
+	switch form {
+	case 0:
+		c.Prog = "{ print \"" + lit + "\" }"
+	case 1:
+		c.Prog = "{ x = 'pre" + lit + "'\n print x.length(), x }"
+	case 2:
+		c.Prog = "{ printf(\"" + lit + "%s\\n\", \"v\") }"
+	default:
+		c.Prog = "{ print }"
+		c.Selectors = []string{"\"" + lit + "\""}
+	}
+	return c
+}
+
 // ---------------------------------------------------------------- printf grid
 
 var printfDirectives = []string{"s", "f", "v", "%", "d", "q", ""}
@@ -942,6 +976,7 @@ func registerC01() {
 	}
 	p.Workloads = []*Workload{
 		progWorkload("signal-grid", map[string]int{"quick": gridCount(), "thorough": gridCount()}, func(i int, t *Tape, tier string) *ProgCase { return gridCase(t.Forced(i, gridCount())) }, false),
+		progWorkload("escape-grid", map[string]int{"quick": escapeGridCount(), "thorough": escapeGridCount()}, func(i int, t *Tape, tier string) *ProgCase { return escapeGridCase(t.Forced(i, escapeGridCount())) }, false),
 		progWorkload("printf-grid", map[string]int{"quick": printfGridCount(), "thorough": printfGridCount()}, func(i int, t *Tape, tier string) *ProgCase { return printfGridCase(t.Forced(i, printfGridCount())) }, false),
 		progWorkload("progtext", map[string]int{"quick": 150000, "thorough": 8000000}, func(i int, t *Tape, tier string) *ProgCase { return genProgCase(t, tier) }, false),
 		progWorkload("expr-api", map[string]int{"quick": 40000, "thorough": 2000000}, func(i int, t *Tape, tier string) *ProgCase { return genExprCase(t) }, false),
